@@ -665,15 +665,19 @@ def check_predicates(ctx, case, real, outp, d, rng, canonical_only, stats):
                     kept.remove(e.text)
                 stats['rule_entries'] += 1
                 if want != got:
-                    sect = (got and not want and e.kind == 'base'
-                            and any(a.startswith('SECT') for a in e.alts))
-                    key = 'sect-exempt-as-splice' if sect else None
-                    if key is None and case.route == 'gtf' and any(case.flags):
+                    key = None
+                    if case.route == 'gtf' and any(case.flags):
                         # decided differently only because the coding set is empty?
                         c0 = case.with_(uni=NoCoding(case.uni))
                         w0 = stated_keep(c0, s, e)
                         if w0 is not None and (w0 and misc_ok) == got:
                             key = 'gtf-route-no-coding'
+                    if key is None:
+                        # (fixed in /repo) SECT-<n> treated as splice-altering: kept only
+                        # because of that exemption, on a run not explained by anything else
+                        sect = (got and not want and e.kind == 'base'
+                                and any(a.startswith('SECT') for a in e.alts))
+                        key = 'sect-exempt-as-splice' if sect else None
                     ctx.add_violation(
                         'filterFasta keeps/drops a header entry against the stated rule',
                         rp({'predicate': 'rule', 'seq': s, 'entry': e.text, 'stated_keep': want,
